@@ -1,5 +1,9 @@
 from . import infer
+from .. import deductive
+from ..contracts import gminit as GI
 
 
 def run(tier):
-    return infer.split(zeros=False)
+    rel, q, c = GI.ITEM
+    # mle (the refit of RDA / IG) is only a valid factorisation for the clique order the junction tree returns: wiring contract
+    return infer.split(zeros=False) + [deductive.verify_function(rel, q, c)]
